@@ -19,6 +19,7 @@ FAMILIES = {
     "c14": ("U14", "P14"),
     "c01": ("U01", "P01"),
     "c15": ("U15", "P15"),
+    "rs": ("U01", "P01"),
 }
 INVARIANTS = "Confluent DryRunNoChange NoCollateralDelete DeleteComplete ContentIdentical RepeatIsNoOp FilterExact"
 ACTIONS = ["SDeletePass", "SGen", "SRcv", "SFinish"]
